@@ -39,6 +39,8 @@ def run_property(pid, tier, repo, evidence_dir, replay_keys=None, quiet=False):
         REGISTRY[pid](model, report, tier)
         from .rules.sharing import apply_sharing
         apply_sharing(model, report, pid)
+        from .rules.readers import apply_readers
+        apply_readers(model, report, pid)
         if not report.obligations:
             raise AnalysisError("no obligation was evaluated")
     except AnalysisError as e:
